@@ -457,8 +457,9 @@ type violation struct {
 }
 
 type histResult struct {
-	viol    []violation
-	foreign bool // a second lifetime looked at a path other than the key file that it had not created itself
+	viol       []violation
+	incomplete bool // the deadline passed inside this history
+	foreign    bool // a second lifetime looked at a path other than the key file that it had not created itself
 }
 
 // lifeRun is what the second process lifetime did: reload, then the remaining requests.
@@ -732,6 +733,7 @@ func (w *worker) runHistory1(cfg *config, hi int, hist []int, initFile []byte, u
 	}
 	for si, sc := range scens {
 		if cfg.r.Expired() {
+			res.incomplete = true
 			break
 		}
 		if (sc.inside >= 0 && firstViol <= sc.inside) || (sc.inside < 0 && firstViol < sc.resume) {
@@ -1009,9 +1011,11 @@ func main() {
 				}
 				res := w.runHistory(cfg, hi, hist, initFile)
 				pool <- w
-				dmu.Lock()
-				done++
-				dmu.Unlock()
+				if !res.incomplete {
+					dmu.Lock()
+					done++
+					dmu.Unlock()
+				}
 				if len(res.viol) == 0 {
 					return
 				}
